@@ -193,7 +193,14 @@ pub fn check_program(p: &Program, st: &mut Stats, order: u64, part: &str) -> Opt
             return Some(bytes_f);
         }
     };
+    // (a handful of reports per program is enough: a 65 537-entry program read wrongly is wrong 65 537 times, and each report
+    // renders the whole program)
+    let reported = std::cell::Cell::new(0u32);
     let mut bad = |field: &str, e: Option<&E>, detail: String, st: &mut Stats| {
+        reported.set(reported.get() + 1);
+        if reported.get() > 6 {
+            return;
+        }
         let d = match e {
             Some(e) => format!("{}:{}", ["file", "dir", "symlink"][e.kind.min(2) as usize], mname(e.expected_method())),
             None => "archive".to_string(),
